@@ -260,6 +260,10 @@ def programs_for(kind, rng, n):
             ("near~", [["failT"], ["failS"], ["failT"]]),
             ("closed~", [["failS", "failS"], ["failS", "state"]]),
             ("closed~", [["failT"], ["failT"], ["allow"]]),
+            # more failures in flight than the threshold needs: the ones that arrive after the trip count for nothing
+            ("closed", [["failT", "failT"], ["failT", "failT"]]),
+            ("near", [["failT"], ["failT"], ["failT", "failT"]]),
+            ("closedC", [["failS", "failS"], ["failS", "failS"]]),
             # trailing "@": the injected clock has a mutex of its own, and a timer fired under that mutex reads the breaker's state
             # (lock order clock -> breaker); the breaker must never call the clock while holding its own lock
             ("expired@", [["allow"], ["timer"]]),
@@ -356,6 +360,14 @@ def explore(ctx, kind, init, program, world, rng, bound, limit, nrandom):
             ctx.viol("operation-raised-under-concurrency", f"{r['errors']} in {desc}; schedule {list(key)}", {"desc": desc, "schedule": list(key)})
             return
         res = tuple(tuple(x) for x in (r["results"][:-1] if moving else r["results"]))
+        if kind == "breaker" and not moving:
+            # the property's own clause, independent of any sequential specification: with the clock standing still the circuit cannot
+            # half-open again, so however many failures race, at most ONE of them reports the opening
+            opened = sum(1 for th in res for x in th if x[0] == "fail" and x[1] == "circuit_opened")
+            ctx.cnt["schedules_checked_for_a_single_opening"] += 1
+            if opened > 1:
+                ctx.viol("circuit-opened-more-than-once", f"{desc}: {opened} racing failures each reported circuit_opened (results {res}; schedule {list(key)})", {"desc": desc, "schedule": list(key)})
+                return
         if moving:
             ctx.cnt["breaker_schedules_with_a_moving_clock"] += 1
         fp = fingerprint(r["obj"], world)
@@ -710,6 +722,9 @@ def replay(data):
         r = sched.run_schedule(make, progs, prefix=p["schedule"])
         res = tuple(tuple(x) for x in (r["results"][:-1] if moving else r["results"]))
         bad = r["sched"].deadlock or bool(r["errors"])
+        if d["component"] == "breaker" and not moving and sum(1 for th in res for x in th if x[0] == "fail" and x[1] == "circuit_opened") > 1:
+            print("more than one racing failure reported circuit_opened")
+            bad = True
         fp = None
         if not bad:
             fp = fingerprint(r["obj"], world)
